@@ -1338,6 +1338,8 @@ def external_call(E, name, ext, e, recv=None, args=None, kwargs=None):
         args, kwargs = eval_args(E, e)
     if ext.get("drop"):
         return NONE
+    if ext.get("recv_arg") and e is not None and isinstance(getattr(e, "func", None), ast.Attribute):
+        args = [recv if recv is not None else E.ev(e.func.value)] + list(args)  # the receiver is the first argument of the spec function
     if ext.get("params"):
         # normalise positional/keyword/default arguments to a fixed positional list
         norm = []
